@@ -187,7 +187,7 @@ func lexCorpus() []string {
 	c := []string{"0", "00", "007", "08", "0x1F", "0X1f", "0x", "0xg", "00x1", "1x", "10x1", "1e5", "1E5", "1e", "1e+", "1e+5", "1e-5", "1e5.",
 		"1e5a", "1e5é", "1e5€", "1e5 ", "1.5", "1.", "1.e5", "1.5e3", "1.5.2", "1.5e", "1.5x", "-0", "-5", "+5", "-", "+", "-a", "--5", "-0x10", "-1.5e-3",
 		"9223372036854775807", "9223372036854775808", "-9223372036854775808", "-9223372036854775809", "99999999999999999999", "5a", "5é", "5€", "5,", "5]",
-		"5 6", "5\x00", "5\xff", "1e5\xff", "0.5", "00.5", "0e0", "0x0", "5e05", "5e+05", "1.000000e+05", "1e+21", "12345678901234567890",
+		"5 6", "5\x00", "5\xff", "1e5\xff", "0.5", "00.5", "0e0", "0x0", "5e05", "5e+05", "1.000000e+05", "1e+21", "12345678901234567890", "1.0x1", "0.0x1F", "1.0X1", "1.00x1", "0.0e1", "1.0e0x1",
 		"''", "'a'", "'a", "'a\\'", "'a\\'b'", "'a\\\\'", "'\\n'", "\"\\n\"", "\"\\u{41}\"", "\"\\u{0}\"", "\"\\u{10FFFF}\"", "\"\\u{110000}\"", "\"\\u{D800}\"",
 		"\"\\u{}\"", "\"\\u{1234567}\"", "\"\\u{12g}\"", "\"\\u41\"", "\"\\u{41\"", "\"\\u{41", "\"\\u", "\"\\", "\"a\\qb\"", "'a\\\"b'", "\"a\\'b\"", "\"a\\\"b\"",
 		"'a\nb'", "\"a\nb\"", "'a\x00b'", "'a\xffb'", "'é€'", "'�'", "\"\\$x\"", "'$x'", "'\\$'", "\"\\t\\r\"", "'\\t'", "'a' 'b'", "'a'b",
@@ -297,6 +297,9 @@ func typeTags(t *Recipe) []string {
 				tags["callable-parameters-ambiguous"] = true
 			}
 		}
+		if r.K == "TimespanR" {
+			tags["timespan-with-bounds"] = true
+		}
 		if r.K == "Pattern" || r.K == "Regexp" {
 			for _, s := range append([]string{r.S}, r.Strs...) {
 				if regexpNotRepresentable(s) {
@@ -392,6 +395,7 @@ func valueHas(v *lat.VSpec, kind string) bool {
 func evaluate(cfg *lib.Config, res *lib.Result, in input, o Obs, em *emitter, idx int) {
 	res.Evaluations++
 	res.Count(in.Kind + "." + in.Family)
+	em.failed = false
 	replaying := cfg.Replay != ""
 	say := func(format string, a ...interface{}) {
 		if replaying {
@@ -419,8 +423,16 @@ func evaluate(cfg *lib.Config, res *lib.Result, in input, o Obs, em *emitter, id
 	text := unhex(o.Out)
 	say("input: %s", describe(in))
 	say("printed: %q", text)
-	say("print=%s lex=%s parse=%s equal=%s printed-again=%q parsed=%q %s", o.Aux["printclass"], o.Aux["lexclass"], o.Aux["parseclass"], o.Aux["equal"],
-		unhex(o.Aux["text2"]), unhex(o.Aux["parsed"]), o.Msg)
+	parsed := o.Aux["parsed"]
+	if k := o.Aux["parsedkind"]; k == "Str" || k == "Regexp" {
+		parsed = fmt.Sprintf("%q", unhex(parsed))
+	}
+	if in.Kind == "lex" {
+		say("first token: kind=%s text=%q lexer=%s tokens=%s intval=%s", o.Aux["tokkind"], unhex(o.Aux["toktext"]), o.Aux["lexclass"], o.Aux["ntok"], o.Aux["intval"])
+	} else {
+		say("print=%s lex=%s parse=%s equal=%s printed-again=%q parsed(%s)=%s %s", o.Aux["printclass"], o.Aux["lexclass"], o.Aux["parseclass"], o.Aux["equal"],
+			unhex(o.Aux["text2"]), o.Aux["parsedkind"], parsed, o.Msg)
+	}
 	// the round trip itself
 	roundTrip := func(tags []string, what string) bool {
 		switch {
@@ -452,6 +464,8 @@ func evaluate(cfg *lib.Config, res *lib.Result, in input, o Obs, em *emitter, id
 			if text != "'"+s+"'" {
 				res.Nontrivial("s:" + s)
 			}
+		} else {
+			em.failed = true
 		}
 		em.addString(in, s, o)
 	case "regexp":
@@ -469,16 +483,22 @@ func evaluate(cfg *lib.Config, res *lib.Result, in input, o Obs, em *emitter, id
 			if text != "/"+src+"/" {
 				res.Nontrivial("r:" + src)
 			}
+		} else {
+			em.failed = true
 		}
 		em.addRegexp(in, src, o)
 	case "int":
-		if roundTrip(nil, "the integer "+in.Int) && len(in.Int) > 1 {
+		if !roundTrip(nil, "the integer "+in.Int) {
+			em.failed = true
+		} else if len(in.Int) > 1 {
 			res.Nontrivial("i:" + in.Int)
 		}
 		em.addInt(in, o)
 	case "float":
 		if roundTrip(nil, "the float "+in.Text) {
 			res.Nontrivial("f:" + in.Bits)
+		} else {
+			em.failed = true
 		}
 		em.addFloat(in, o)
 	case "value":
@@ -508,10 +528,15 @@ func evaluate(cfg *lib.Config, res *lib.Result, in input, o Obs, em *emitter, id
 			if strings.ContainsAny(text, "[{") {
 				res.Nontrivial("t:" + in.Recipe.json())
 			}
+		} else {
+			em.failed = true
 		}
 		em.addType(in, o)
 	case "lex":
 		em.addLex(in, in.bytes(), o)
+	}
+	if in.Kind == "value" || in.Kind == "type" || in.Kind == "lex" {
+		em.addParse(in, o)
 	}
 	if idx%997 == 3 {
 		res.Sample(map[string]interface{}{"input": in, "printed": text, "equal": o.Aux["equal"]})
